@@ -923,6 +923,13 @@ class SymEval:
                 return Text([('fmt', a, vals)])
             if isinstance(n.op, ast.Mult) and isinstance(a, str) and isinstance(b, (int, sp.Integer)):
                 return a * int(b)
+            other = b if isinstance(a, (str, Text, StrLike)) else a
+            if isinstance(a, str) or isinstance(b, str):
+                if (isinstance(other, sp.Basic) and not isinstance(other, sp.Integer)) or is_arr(other) or isinstance(n.op, (ast.Div, ast.Sub, ast.Pow, ast.FloorDiv)) and not isinstance(other, (Text, StrLike)):
+                    # Python refuses arithmetic between text and a number / symbol
+                    if self.try_depth > 0:
+                        raise _PyRaise('TypeError')
+                    raise WouldRaise('TypeError: unsupported operand types (text and number) in %s' % norm(n))
             raise Opaque('string arithmetic ' + norm(n))
         try:
             return BIN[type(n.op)](a, b)
@@ -1319,6 +1326,8 @@ class SymEval:
         except (KeyError, IndexError, TypeError, ValueError) as e:
             if self.try_depth > 0:
                 raise _PyRaise(type(e).__name__, e)
+            if isinstance(e, IndexError) and isinstance(base, (list, tuple, str)) and isinstance(idx, int):
+                raise WouldRaise('IndexError: %s in %s' % (e, norm(n)))       # a concrete sequence indexed past its end: Python raises here too
             raise Opaque('subscript %s: %s' % (norm(n), e))
         if isinstance(base, sp.Basic) and idx is Ellipsis:
             return base
